@@ -62,3 +62,14 @@ Theorem component_roundtrip : forall more instr c bytes rest,
   ModelComponent.decompile (bytes ++ rest) = Ok (c, more, instr, rest).
 Proof. exact ProofsComponent.component_roundtrip. Qed.
 Print Assumptions component_roundtrip.
+
+(* ---- kern format 0 (ModelKern.v: both subtable headers, the sorted pair records, the saturating pair count): the compiled subtable
+   decodes to the same pairs in glyph-ID order, for any set of at most 65535 pairs that fit their fields *)
+From FV Require C02.ModelKern C02.ProofsKern.
+Theorem kern0_roundtrip : forall apple coverage ti pairs bytes,
+  NoDup (map ProofsKern.key pairs) -> Z.of_nat (length pairs) <= 65535 ->
+  ModelKern.kern0_compile apple coverage ti pairs = Ok bytes ->
+  ModelKern.kern0_decompile apple bytes = Ok (coverage, (if apple then Some ti else None), ModelKern.sort3 pairs) /\
+  Permutation.Permutation (ModelKern.sort3 pairs) pairs.
+Proof. exact ProofsKern.kern0_roundtrip. Qed.
+Print Assumptions kern0_roundtrip.
